@@ -37,7 +37,12 @@ Deviations == { "NoAliveCheckOnIdle",    \* the no-entry path hands out an idle 
                 "NoMarkDead",            \* ErrShutdown does not mark the connection
                 "AppendIdleNoCheck",     \* the append path hands out an idle connection without looking at its dead mark
                 "RoundRobinNoCheck",     \* the round-robin path hands out a connection carrying the dead mark
-                "ReplaceKeepsDead" }    \* a dead connection is re-dialed but the dead one is handed out (the fresh one is dropped)
+                "ReplaceKeepsDead",     \* a dead connection is re-dialed but the dead one is handed out (the fresh one is dropped)
+                "RetireDropsDead",      \* retire closes and drops a connection already marked dead instead of parking it (harmless by itself;
+                                        \* combined with AppendIdleNoCheck it forces the "died while parked" path)
+                "ExpireChecksRear",
+                "CloseHalfIdle",
+                "DeadlineMarksDead" }   \* a call abandoned at its context's deadline marks the (healthy) connection dead and closes it       \* Close walks the idle queue with a shrinking bound and closes only the first half of it    \* idle expiry looks at the calls of the rear entry but closes the front one
 
 ASSUME Dev \subseteq Deviations
 DevChoice(d) == IF d \in Dev THEN BOOLEAN ELSE {FALSE}
@@ -259,6 +264,20 @@ Return(k, dNoMark) ==
                  /\ open' = IF dNoMark THEN open ELSE [open EXCEPT ![c] = FALSE]
     /\ UNCHANGED <<conns, cursor, idle, addrOf, broken, used, up, clock, tnow, closed, caddr, ncalls, nkills>>
 
+\* CallWithContext: the caller's context ends before the answer. The caller returns the context's error at once; the
+\* connection is healthy and stays pooled (the abandoned call is discarded when its answer arrives).
+Expire(k, dMarkDead) ==
+    /\ cst[k] = "inflight"
+    /\ LET c == cconn[k] IN
+       /\ open[c] /\ ~broken[c]
+       /\ busy' = [busy EXCEPT ![c] = @ - 1]
+       /\ last' = [last EXCEPT ![c] = tnow]
+       /\ cst' = [cst EXCEPT ![k] = "idle"]
+       /\ cconn' = [cconn EXCEPT ![k] = NoConn]
+       /\ alive' = IF dMarkDead THEN [alive EXCEPT ![c] = FALSE] ELSE alive
+       /\ open' = IF dMarkDead THEN [open EXCEPT ![c] = FALSE] ELSE open
+    /\ UNCHANGED <<conns, cursor, idle, addrOf, broken, used, up, clock, tnow, closed, caddr, ncalls, nkills, failsSince>>
+
 --------------------------------------------------------------------------------
 \* Housekeeping: one pass of run() (atomic under connsMu; NumCalls is read per connection).
 
@@ -272,7 +291,9 @@ RetirePass(act, idl, opn, i, dBusy, dNoLimit) ==
     IF i > Len(act) THEN <<act, idl, opn>>
     ELSE LET c == act[i] IN
          IF Stale(c) /\ (busy[c] = 0 \/ dBusy)
-           THEN IF Len(idl) < MaxIdle \/ dNoLimit
+           THEN IF "RetireDropsDead" \in Dev /\ ~alive[c]
+                  THEN RetirePass(RemoveAt(act, i), idl, [opn EXCEPT ![c] = FALSE], i, dBusy, dNoLimit)
+                ELSE IF Len(idl) < MaxIdle \/ dNoLimit
                   THEN RetirePass(RemoveAt(act, i), Append(idl, c), opn, i, dBusy, dNoLimit)
                   ELSE RetirePass(RemoveAt(act, i), idl,
                                   IF "OverflowNotClosed" \in Dev THEN opn ELSE [opn EXCEPT ![c] = FALSE],
@@ -286,7 +307,7 @@ RECURSIVE ExpirePass(_, _, _, _, _)
 ExpirePass(idl, opn, lst, n, dBusy) ==
     IF n = 0 \/ idl = <<>> THEN <<idl, opn, lst>>
     ELSE IF lst[idl[Len(idl)]] + IdleTO < clock
-           THEN IF busy[Head(idl)] = 0 \/ dBusy
+           THEN IF (IF "ExpireChecksRear" \in Dev THEN busy[idl[Len(idl)]] = 0 ELSE busy[Head(idl)] = 0) \/ dBusy
                   THEN ExpirePass(Tail(idl), [opn EXCEPT ![Head(idl)] = FALSE], lst, n - 1, dBusy)
                   ELSE ExpirePass(Append(Tail(idl), Head(idl)), opn, [lst EXCEPT ![Head(idl)] = clock], n - 1, dBusy)
            ELSE ExpirePass(idl, opn, lst, n - 1, dBusy)
@@ -328,7 +349,9 @@ CloseIdle(dActiveBusy, dIdleBusy) ==
 Close ==
     /\ ~closed
     /\ closed' = TRUE
-    /\ open' = [c \in ConnIds |-> IF \E a \in Addrs : c \in Pooled(a) THEN FALSE ELSE open[c]]
+    /\ LET skipped == IF "CloseHalfIdle" \in Dev
+                       THEN UNION {{idle[a][i] : i \in ((Len(idle[a]) + 1) \div 2 + 1)..Len(idle[a])} : a \in Addrs} ELSE {} IN
+       open' = [c \in ConnIds |-> IF (\E a \in Addrs : c \in Pooled(a)) /\ c \notin skipped THEN FALSE ELSE open[c]]
     /\ conns' = [a \in Addrs |-> <<>>]
     /\ idle' = [a \in Addrs |-> <<>>]
     /\ UNCHANGED <<cursor, addrOf, alive, broken, last, busy, used, up, clock, tnow, cst, cconn, caddr, ncalls, nkills, failsSince>>
@@ -389,6 +412,7 @@ Next ==
     \/ \E k \in Callers : \E a \in Addrs : GetConn(k, a)
     \/ \E k \in Callers : \E d \in DevChoice("NoMarkDead") : Register(k, d)
     \/ \E k \in Callers : \E d \in DevChoice("NoMarkDead") : Return(k, d)
+    \/ \E k \in Callers : \E d \in DevChoice("DeadlineMarksDead") : Expire(k, d)
     \/ \E d1 \in DevChoice("RetireBusy") : \E d2 \in DevChoice("EnqueueNoLimit") : \E d3 \in DevChoice("IdleCloseIgnoresBusy") : Tick(d1, d2, d3)
     \/ \E d1 \in DevChoice("CloseIdleBusy") : \E d2 \in DevChoice("IdleCloseIgnoresBusy") : CloseIdle(d1, d2)
     \/ Close
@@ -413,6 +437,8 @@ NoLeak ==    \* an open, live connection is pooled or held by a caller (nothing 
         \/ \E a \in Addrs : c \in Pooled(a)
         \/ \E k \in Callers : cconn[k] = c
 
+ClosedAllShut == closed => \A c \in ConnIds : ~open[c]      \* C15 / C20: Close leaves no connection of the pool open
+
 \* ---- C14
 RightAddress ==     \* a caller asking for address a is handed a connection dialed to a
     [][\A k \in Callers : (cst[k] = "idle" /\ cst'[k] = "got") => addrOf'[cconn'[k]] = caddr'[k]]_vars
@@ -427,6 +453,10 @@ RecoveryBound == \A k \in Callers : failsSince[k] <= MaxConns + MaxIdle + 1
 \* housekeeping (tick, CloseIdleConnections) never closes a connection with calls in flight
 SpareBusy ==
     [][\A c \in ConnIds : (open[c] /\ ~open'[c] /\ busy[c] > 0) => (closed' /\ ~closed) \/ (\E k \in Callers : cconn[k] = c /\ cst[k] \in {"inflight", "got"} /\ cst'[k] = "idle")]_vars
+\* the library closes a healthy connection only when nothing else is registered on it (C19 at the pool level: an abandoned
+\* call harms no other call; C15)
+NoCollateralClose ==
+    [][\A c \in ConnIds : (open[c] /\ ~open'[c] /\ ~broken[c] /\ ~(closed' /\ ~closed)) => busy'[c] = 0]_vars
 CloseClosesAll == closed => \A a \in Addrs : conns[a] = <<>> /\ idle[a] = <<>>
 
 ================================================================================
